@@ -147,6 +147,14 @@ func (f *File) isValidAlias(alias string) bool {
 	return true
 }
 
+// prefixed returns the name as it will appear in the import block: aliases get the PackagePrefix.
+func (f *File) prefixed(name string, alias bool) string {
+	if f.PackagePrefix != "" && alias {
+		return f.PackagePrefix + "_" + name
+	}
+	return name
+}
+
 func (f *File) isDotImport(path string) bool {
 	if id, ok := f.hints[path]; ok {
 		return id.name == "." && id.alias
@@ -194,7 +202,7 @@ func (f *File) register(path string) string {
 	// If the name is invalid or has been registered already, make it unique by appending a number
 	unique := name
 	i := 0
-	for !f.isValidAlias(unique) {
+	for !f.isValidAlias(unique) || !f.isValidAlias(f.prefixed(unique, alias || unique != name)) {
 		i++
 		unique = fmt.Sprintf("%s%d", name, i)
 	}
